@@ -14,7 +14,7 @@ RULES = {
     "J3": "no skip*/flatten/with/default/getter/from/into asymmetry on any type in the closure of the listed types",
     "J4": "integer fidelity: no float-typed field in the listed types and no integer->float cast in a hand-written serializer",
     "J5": "checksum stability: the serialization closure of PriceLevelSnapshot iterates only order-preserving containers (no DashMap iteration), so re-serializing a decoded package reproduces the checksummed bytes",
-    "J6": "PriceLevel uses the same intermediate type (PriceLevelData) in both directions",
+    "J6": "PriceLevel uses the same intermediate type (PriceLevelData) in both directions; TryFrom<PriceLevelData> hands every decoded order to add_order exactly once, unchanged, on a level created with the decoded price",
     "J0": "coverage: every listed type has a Serialize and a Deserialize impl",
 }
 
@@ -115,6 +115,97 @@ def visitor_table(ctx, vs_body, vm_body, struct_adt):
     return table, rejects_unknown, n_ok
 
 
+
+def rule_serde_attrs(ctx, chk, j2, j3):
+    """derived serde impls: attribute agreement (shared with C10/C11/C19, whose JSON routes go through the same types)"""
+    db = ctx.db
+    by_owner = {}
+    for a in db.attrs:
+        if not a["text"].startswith("#[serde"):
+            continue
+        by_owner.setdefault((a["adt"], a["kind"], a["owner"]), []).append(a)
+    accepted = {}
+    for (adt, kind, owner), attrs in sorted(by_owner.items()):
+        items = [i for a in attrs for i in serde_items(a["text"])]
+        span = attrs[0]["span"]
+        key = "%s.%s" % (adt, owner) if kind != "item" else owner
+        for it in items:
+            name = re.split(r"[=(\s]", it, 1)[0]
+            if name in ("rename", "alias", "rename_all", "deny_unknown_fields", "crate", "expecting"):
+                continue
+            if name in ("tag", "untagged", "content"):
+                chk.fail(j2, key + ":" + name, span, "serde(%s) changes the enum representation (externally tagged expected)" % it)
+                continue
+            if name.startswith(ASYM) or any(name.startswith(x) for x in ("serialize_with", "deserialize_with", "skip_serializing", "skip_deserializing")):
+                chk.fail(j3, key + ":" + name, span, "serde(%s) can make serialization and deserialization disagree" % it)
+                continue
+            chk.fail(j3, key + ":" + name + ":unknown", span, "unrecognised serde attribute %s" % it, undecided=True)
+        if kind == "variant":
+            ser_name, de_names = owner, {owner}
+            for it in items:
+                m = re.match(r"rename\s*\(\s*serialize\s*=\s*\"([^\"]*)\"\s*\)", it)
+                if m:
+                    ser_name = m.group(1)
+                m = re.match(r"rename\s*\(\s*deserialize\s*=\s*\"([^\"]*)\"\s*\)", it)
+                if m:
+                    de_names = (de_names - {owner}) | {m.group(1)}
+                m = re.match(r"rename\s*=\s*\"([^\"]*)\"", it)
+                if m:
+                    ser_name = m.group(1)
+                    de_names = (de_names - {owner}) | {m.group(1)}
+                m = re.match(r"rename\s*\(\s*serialize\s*=\s*\"([^\"]*)\"\s*,\s*deserialize\s*=\s*\"([^\"]*)\"\s*\)", it)
+                if m:
+                    ser_name = m.group(1)
+                    de_names = (de_names - {owner}) | {m.group(2)}
+                m = re.match(r"alias\s*=\s*\"([^\"]*)\"", it)
+                if m:
+                    de_names.add(m.group(1))
+            chk.require(ser_name in de_names, j2, key, span, "variant %s is written as %r but reading accepts only %s" % (owner, ser_name, sorted(de_names)))
+            accepted.setdefault(adt, {})[owner] = de_names
+    for adt, m in accepted.items():
+        names = {}
+        for v, ns in m.items():
+            for n in ns:
+                names.setdefault(n, []).append(v)
+        for n, vs in names.items():
+            chk.require(len(vs) == 1, j2, "%s:ambiguous:%s" % (adt, n), "", "name %r is accepted for variants %s" % (n, vs))
+    chk.stats["serde_attr_owners"] = len(by_owner)
+    chk.require(len(by_owner) >= 7, j2, "attributes-found", "", "only %d attributed items found (Side/TimeInForce variants expected)" % len(by_owner))
+
+
+def rule_order_id_json(ctx, chk, rid):
+    """OrderId's JSON form is its text form: Serialize writes to_string(), Deserialize reads an owned string through
+    from_str, and that Display/FromStr pair round-trips (C16's table rules applied to OrderId)"""
+    db = ctx.db
+    cg = ctx.cg
+    # OrderId
+    sb = db.method("OrderId", "serialize", trait="Serialize")
+    w = ctx.walker(max_depth=1)
+    for r in w.walk(sb):
+        if r.kind != "return":
+            continue
+        ss = [e for e in r.trace if e[0] == "call" and e[1].endswith("serialize_str")]
+        ok = len(ss) == 1 and "to_string" in short(argv(ss[0])[1]) and any(s == ("ref", ("pl", ("obj", ("param", 1)), ()), False) for s in subterms(argv(ss[0])[1]))
+        chk.require(ok, rid, "OrderId:writes-to_string", sb.span, "OrderId serializes %s" % [short(argv(e)[1])[:80] for e in ss])
+    dbo = db.method("OrderId", "deserialize", trait="Deserialize")
+    reach = cg.reach([dbo.defp])
+    chk.require(db.method("OrderId", "from_str", trait="FromStr").defp in reach, rid, "OrderId:reads-from_str", dbo.span, "OrderId::deserialize does not go through from_str")
+    chk.require(db.method("OrderId", "fmt", trait="Display").defp in cg.reach([sb.defp]), rid, "OrderId:writes-display", sb.span, "OrderId::serialize does not use its Display form")
+    from .c16 import check_order_id_text_pair
+    check_order_id_text_pair(ctx, chk, rid)
+    # the string is taken by value: `<&str>::deserialize` only works when the deserializer can lend the text
+    # (serde_json::from_str on unescaped input), not for from_reader / from_value / escaped strings
+    for d in sorted(reach):
+        bd = db.bodies.get(d)
+        if bd is None:
+            continue
+        for bb, t in bd.calls():
+            c = t["callee"]
+            if c and c["name"] == "deserialize" and c.get("trait") and "Deserialize" in c["trait"]:
+                g0 = (c.get("gargs") or [""])[0].replace(" ", "")
+                chk.require(not (g0.startswith("&") and ("str" in g0 or "[u8]" in g0)), rid, "OrderId:borrowed-deserialize", t["span"],
+                            "OrderId::deserialize reads a borrowed %s: fails for every deserializer that cannot lend its input (from_reader, from_value, escaped text)" % g0)
+
 def run(ctx, chk):
     for k, v in RULES.items():
         chk.rule(k, v)
@@ -190,19 +281,7 @@ def run(ctx, chk):
                 if e[0] == "call" and any(x in e[1] for x in ("::filter", "::skip", "::take", "::rev", "dedup", "retain", "truncate", "sort", "step_by", "filter_map", "swap_remove")):
                     chk.fail("J1", "%s:decoded-list-altered" % ty, e[5], "the visitor alters the decoded element list with %s" % e[1], describe_path(r))
         chk.sample({"type": ty, "written": wkeys, "read": table})
-    # OrderId
-    sb = db.method("OrderId", "serialize", trait="Serialize")
-    w = ctx.walker(max_depth=1)
-    for r in w.walk(sb):
-        if r.kind != "return":
-            continue
-        ss = [e for e in r.trace if e[0] == "call" and e[1].endswith("serialize_str")]
-        ok = len(ss) == 1 and "to_string" in short(argv(ss[0])[1]) and any(s == ("ref", ("pl", ("obj", ("param", 1)), ()), False) for s in subterms(argv(ss[0])[1]))
-        chk.require(ok, "J1", "OrderId:writes-to_string", sb.span, "OrderId serializes %s" % [short(argv(e)[1])[:80] for e in ss])
-    dbo = db.method("OrderId", "deserialize", trait="Deserialize")
-    reach = cg.reach([dbo.defp])
-    chk.require(db.method("OrderId", "from_str", trait="FromStr").defp in reach, "J1", "OrderId:reads-from_str", dbo.span, "OrderId::deserialize does not go through from_str")
-    chk.require(db.method("OrderId", "fmt", trait="Display").defp in cg.reach([sb.defp]), "J1", "OrderId:writes-display", sb.span, "OrderId::serialize does not use its Display form")
+    rule_order_id_json(ctx, chk, "J1")
     # OrderQueue
     qs = db.method("OrderQueue", "serialize", trait="Serialize")
     w = ctx.walker(max_depth=2)
@@ -219,58 +298,7 @@ def run(ctx, chk):
     chk.require(len(ne) == 1 and any("OrderType<()>" in g for g in ne[0]["callee"]["gargs"]), "J1", "OrderQueue:element-type", vseq.span,
                 "visit_seq reads elements of %s" % [t["callee"]["gargs"] for t in ne])
     # ---------------- J2 / J3 attributes
-    by_owner = {}
-    for a in db.attrs:
-        if not a["text"].startswith("#[serde"):
-            continue
-        by_owner.setdefault((a["adt"], a["kind"], a["owner"]), []).append(a)
-    accepted = {}
-    for (adt, kind, owner), attrs in sorted(by_owner.items()):
-        items = [i for a in attrs for i in serde_items(a["text"])]
-        span = attrs[0]["span"]
-        key = "%s.%s" % (adt, owner) if kind != "item" else owner
-        for it in items:
-            name = re.split(r"[=(\s]", it, 1)[0]
-            if name in ("rename", "alias", "rename_all", "deny_unknown_fields", "crate", "expecting"):
-                continue
-            if name in ("tag", "untagged", "content"):
-                chk.fail("J2", key + ":" + name, span, "serde(%s) changes the enum representation (externally tagged expected)" % it)
-                continue
-            if name.startswith(ASYM) or any(name.startswith(x) for x in ("serialize_with", "deserialize_with", "skip_serializing", "skip_deserializing")):
-                chk.fail("J3", key + ":" + name, span, "serde(%s) can make serialization and deserialization disagree" % it)
-                continue
-            chk.fail("J3", key + ":" + name + ":unknown", span, "unrecognised serde attribute %s" % it, undecided=True)
-        if kind == "variant":
-            ser_name, de_names = owner, {owner}
-            for it in items:
-                m = re.match(r"rename\s*\(\s*serialize\s*=\s*\"([^\"]*)\"\s*\)", it)
-                if m:
-                    ser_name = m.group(1)
-                m = re.match(r"rename\s*\(\s*deserialize\s*=\s*\"([^\"]*)\"\s*\)", it)
-                if m:
-                    de_names = (de_names - {owner}) | {m.group(1)}
-                m = re.match(r"rename\s*=\s*\"([^\"]*)\"", it)
-                if m:
-                    ser_name = m.group(1)
-                    de_names = (de_names - {owner}) | {m.group(1)}
-                m = re.match(r"rename\s*\(\s*serialize\s*=\s*\"([^\"]*)\"\s*,\s*deserialize\s*=\s*\"([^\"]*)\"\s*\)", it)
-                if m:
-                    ser_name = m.group(1)
-                    de_names = (de_names - {owner}) | {m.group(2)}
-                m = re.match(r"alias\s*=\s*\"([^\"]*)\"", it)
-                if m:
-                    de_names.add(m.group(1))
-            chk.require(ser_name in de_names, "J2", key, span, "variant %s is written as %r but reading accepts only %s" % (owner, ser_name, sorted(de_names)))
-            accepted.setdefault(adt, {})[owner] = de_names
-    for adt, m in accepted.items():
-        names = {}
-        for v, ns in m.items():
-            for n in ns:
-                names.setdefault(n, []).append(v)
-        for n, vs in names.items():
-            chk.require(len(vs) == 1, "J2", "%s:ambiguous:%s" % (adt, n), "", "name %r is accepted for variants %s" % (n, vs))
-    chk.stats["serde_attr_owners"] = len(by_owner)
-    chk.require(len(by_owner) >= 7, "J2", "attributes-found", "", "only %d attributed items found (Side/TimeInForce variants expected)" % len(by_owner))
+    rule_serde_attrs(ctx, chk, "J2", "J3")
     # ---------------- J4 no float fields
     for ty in LISTED:
         try:
@@ -285,6 +313,8 @@ def run(ctx, chk):
     eff = [(c, m, d) for c, m, d, callee, sp in cg.effects_closure(ssnap.defp) if c == "MAP" and m in ("iter", "iter_mut", "into_iter")]
     chk.require(not eff, "J5", ssnap.defp, ssnap.span, "snapshot serialization iterates a hash map: %s" % eff)
     # ---------------- J6
+    from .c01 import rule_readd_every_element
+    rule_readd_every_element(ctx, chk, "J6")
     ps = db.method("PriceLevel", "serialize", trait="Serialize")
     pd = db.method("PriceLevel", "deserialize", trait="Deserialize")
     dser = db.method("PriceLevelData", "serialize", trait="Serialize")
